@@ -164,8 +164,15 @@ class MonInversion(object):
     def __init__(self, rule):
         self.rule = rule
         self.keys = None
+        self.touched = set()
+
+    def on_write(self, tr, obj, attr, old, new):
+        if attr == "placed_workplace":
+            self.touched.add(id(obj))
 
     def on_phase(self, tr, project, phase, snap):
+        if phase == "recorded":
+            self.touched = set()
         if phase == "updated":
             self.keys = {}
             for t in project.workflow.task_list:
@@ -181,9 +188,27 @@ class MonInversion(object):
             if not new:
                 continue
             for H in waiting:
-                if H is L or H.need_facility:
+                if H is L:
                     continue
                 if not (self.keys[H] < self.keys[L]):
+                    continue
+                if H.need_facility:
+                    # the higher-priority task needs a (worker, facility) pair: inversion if a facility that
+                    # could serve it is still FREE after the pass and the worker given to L can operate it
+                    if any(x.solo_working for x in snap.aw[H]):
+                        continue
+                    for f in M.usable_free_facilities(project, snap, tr, H, self.touched):
+                        for w in new:
+                            tr.counters["C11.contention_pairs_with_facility"] += 1
+                            if not M.worker_eligible(project, w, H):
+                                continue
+                            if not (w.facility_skill_map.get(f.name, 0.0) > 1e-10):
+                                continue
+                            if w.solo_working and snap.aw[H]:
+                                continue
+                            tr.violate("C11", "C11/priority-inversion:%s:facility-task" % self.rule.name,
+                                       "step %d: worker %s newly given to %s (key %r) although higher-priority facility task %s (key %r) could accept him with the FREE facility %s" % (
+                                           snap.step, w.ID, L.ID, self.keys[L], H.ID, self.keys[H], f.ID), task=L, res=w, higher=H)
                     continue
                 hs = snap.aw[H]
                 if any(x.solo_working for x in hs):
@@ -237,8 +262,43 @@ def gen_returning_worker(rng):
                 sim=dict(rule=rng.choice([0, 6, 5, 4, 6, 5]), absence=[], auto_flag=False, max_time=80))
 
 
+def gen_partial_operators(rng):
+    """Facility tasks whose workplace has several skilled facilities of which each worker can operate only
+    some (and not necessarily the first in facility-priority order), next to plain tasks the same workers
+    can do: whether the worker ends up at the higher-priority facility task depends on the allocator going
+    through ALL facilities of the workplace."""
+    nf = rng.randint(1, 2)          # facility tasks (one single-task component each)
+    npl = rng.randint(1, 2)         # plain tasks
+    tasks, comps = [], []
+    for k in range(nf):
+        t = G._simple_task(k, rng.choice([2, 3, 4, 6]), [])
+        t["need_facility"], t["component"] = True, k
+        t["fpr"], t["wkr"] = rng.choice([-1, 0, 1, 2]), rng.choice([-1, 0, 1, 2])
+        tasks.append(t)
+        comps.append(dict(name="c%d" % k, id="C%d" % k, space=1.0, children=[]))
+    for k in range(nf, nf + npl):
+        tasks.append(G._simple_task(k, rng.choice([1, 2, 3, 5, 8]), []))
+    facs = []
+    for j in range(rng.randint(2, 4)):
+        facs.append(dict(name="f0_%d" % j, id="F0_%d" % j, skills={"t%d" % k: rng.choice([0.5, 1.0, 2.0]) for k in range(nf)},
+                         cost=rng.choice([0.0, 1.0, 2.5]), solo=False, absence=[]))
+    wps = [dict(name="wp0", id="WP0", max_space=float(nf + 1), inputs=[], targets=list(range(nf)), facilities=facs)]
+    workers = []
+    for j in range(rng.randint(1, 3)):
+        w = G._worker(0, j, {"t%d" % k: rng.choice([1.0, 1.0, 2.0]) for k in range(nf + npl) if rng.random() < 0.9}, cost=1.0)
+        can = rng.sample(range(len(facs)), rng.randint(1, max(1, len(facs) - 1)))
+        w["fskills"] = {"f0_%d" % j2: (1.0 if j2 in can else rng.choice([0.0, None])) for j2 in range(len(facs))}
+        w["fskills"] = {k: v for k, v in w["fskills"].items() if v is not None}
+        workers.append(w)
+    teams = [dict(name="team0", id="TM0", targets=list(range(nf + npl)), workers=workers)]
+    return dict(tasks=tasks, comps=comps, wps=wps, teams=teams,
+                sim=dict(rule=rng.randrange(9), absence=[], auto_flag=False, max_time=80))
+
+
 def make_case(prop, seed, i, tier):
     rng = rng_for(prop, seed, i)
+    if i % 8 == 5:
+        return dict(prop=prop, i=i, kind="sim", spec=gen_partial_operators(rng), family="partial-operators")
     if i % 2 == 0:
         return dict(prop=prop, i=i, kind="direct", seed=rng.randrange(10 ** 9), n_calls=40)
     if i % 8 in (3, 7):
